@@ -27,17 +27,17 @@ func init() {
 // the piece is never written and the peer's downloader is never freed.
 func runR10_5(c *kit.Ctx) {
 	k := newKeyer()
-	h := c.Func("torrent", "(*torrent).handlePieceMessage")
 	gotBlock := c.FuncObj("internal/piecedownloader", "(*PieceDownloader).GotBlock")
 	gb := c.Func("internal/piecedownloader", "(*PieceDownloader).GotBlock")
 	done := c.FuncObj("internal/piecedownloader", "(*PieceDownloader).Done")
 	// classify GotBlock's error results: returned before or after the copy
+	// (the copy may sit in a helper of GotBlock: callee summaries)
 	copied := (&kit.Flow{P: c.Prog, Fn: gb, Instr: func(ins ssa.Instruction, in bool) bool {
 		if isBuiltin(kit.CallOf(ins), "copy") {
 			return true
 		}
 		return in
-	}}).Solve()
+	}}).WithDeep(kit.DefaultDeep, nil).Solve()
 	notSaved := map[types.Object]bool{} // sentinel errors returned before the block is stored
 	for _, r := range returnsOf(gb) {
 		e := kit.Canon(r.Results[0])
@@ -46,47 +46,85 @@ func runR10_5(c *kit.Ctx) {
 		}
 	}
 	c.Floor("R10.5", "GotBlock error sentinels returned before the block is stored", len(notSaved), 2)
-	var call ssa.Value
-	kit.Instrs(h, func(ins ssa.Instruction) {
-		if kit.CallsAny(ins, gotBlock) {
-			call = ins.(ssa.Value)
+	// paths that drop the peer do not need the completion test: the downloader is closed with it
+	closePeer := c.FuncObj("torrent", "(*torrent).closePeer")
+	// pendingExits: the returns of fn reached with "a block was stored since
+	// `open` and pd.Done() was not evaluated" (and the peer not dropped).
+	pendingExits := func(fn *ssa.Function, open ssa.Instruction, edge func(kit.Atom) bool) []*ssa.Return {
+		// the opening call itself must not be summarised (kit.Flow would replace
+		// the "opened" value by the callee's summary of the value before it)
+		var opened *ssa.Function
+		if cc := kit.CallOf(open); cc != nil {
+			opened = cc.StaticCallee()
 		}
-	})
-	if call == nil {
-		c.Bad("R10.5", kit.FuncName(h)+"/GotBlock", h.Pos(), "handlePieceMessage no longer calls GotBlock")
-		return
+		fl := (&kit.Flow{P: c.Prog, Fn: fn, Entry: true, Edge: edge,
+			Instr: func(ins ssa.Instruction, in bool) bool {
+				if ins == open {
+					return false
+				}
+				if kit.CallsAny(ins, done) {
+					return true
+				}
+				return in
+			}}).WithDeep(kit.DefaultDeep, func(g *ssa.Function) bool { return g != opened }).Solve()
+		closed := c.Called(fn, closePeer)
+		var out []*ssa.Return
+		for _, r := range fl.FailingReturns() {
+			if !closed.Before(r) {
+				out = append(out, r)
+			}
+		}
+		return out
 	}
-	fl := (&kit.Flow{P: c.Prog, Fn: h, Entry: true,
-		Edge: func(a kit.Atom) bool {
+	// callersDischarge: the function that stored the block returns with the
+	// completion test pending; then every static caller must evaluate it after
+	// the call (the handler was split and the tail stayed in the caller).
+	var callersDischarge func(fn *ssa.Function, up int) bool
+	callersDischarge = func(fn *ssa.Function, up int) bool {
+		sites := c.StaticCallSites(fn)
+		if len(sites) == 0 || up <= 0 {
+			return false
+		}
+		for _, s := range sites {
+			if s == nil {
+				return false
+			}
+			if len(pendingExits(s.Parent(), s, nil)) > 0 && !callersDischarge(s.Parent(), up-1) {
+				return false
+			}
+		}
+		return true
+	}
+	n := 0
+	for _, s := range sortSites(c.CallSites(gotBlock)) {
+		if !inPkg(s.Fn, c, "torrent") {
+			continue
+		}
+		n++
+		h := s.Fn
+		call, isCall := s.Instr.(*ssa.Call)
+		if !isCall {
+			c.Bad("R10.5", k.key(h, "GotBlock result dropped"), posOf(s.Instr), "GotBlock is spawned / deferred: its result (stored or not) is never examined")
+			continue
+		}
+		pend := pendingExits(h, call, func(a kit.Atom) bool {
 			// err == <sentinel returned before the block is stored>: nothing was stored
-			if a.Op != token.EQL || a.L.V != call {
+			if a.Op != token.EQL || a.L.V != ssa.Value(call) {
 				return false
 			}
 			r := a.R
 			return r.Kind == "deref" && r.Args[0].Kind == "global" && notSaved[r.Args[0].Obj]
-		},
-		Instr: func(ins ssa.Instruction, in bool) bool {
-			if ins == call.(ssa.Instruction) {
-				return false
+		})
+		if len(pend) > 0 && !callersDischarge(h, 2) {
+			for _, r := range pend {
+				c.Bad("R10.5", k.key(h, "return after stored block"), posOf(r), "the handler can return after GotBlock stored the block (nil / ErrBlockNotRequested) without evaluating pd.Done(): a block that completes the piece is dropped, the piece is never written and the peer is never asked again")
 			}
-			if kit.CallsAny(ins, done) {
-				return true
-			}
-			return in
-		}}).Solve()
-	// paths that drop the peer do not need the completion test: the downloader is closed with it
-	closePeer := c.FuncObj("torrent", "(*torrent).closePeer")
-	bad := 0
-	for _, r := range fl.FailingReturns() {
-		closed := c.Called(h, closePeer)
-		if closed.Before(r) {
 			continue
 		}
-		bad++
-		c.Bad("R10.5", k.key(h, "return after stored block"), posOf(r), "handlePieceMessage can return after GotBlock stored the block (nil / ErrBlockNotRequested) without evaluating pd.Done(): a block that completes the piece is dropped, the piece is never written and the peer is never asked again")
+		c.OK("R10.5", k.key(h, "stored block reaches Done()"), posOf(call), "every path after a stored block evaluates pd.Done() (or drops the peer)")
 	}
-	if bad == 0 {
-		c.OK("R10.5", kit.FuncName(h)+"/stored block reaches Done()", posOf(call.(ssa.Instruction)), "every path after a stored block evaluates pd.Done() (or drops the peer)")
+	if n == 0 {
+		c.Bad("R10.5", "torrent/GotBlock", gb.Pos(), "package torrent no longer calls PieceDownloader.GotBlock")
 	}
 }
 
@@ -106,21 +144,20 @@ func runR09_8impl(c *kit.Ctx, rule string) {
 	fChoked := c.Field("torrent", "torrent", "pieceDownloadersChoked")
 	handleChoke := c.FuncObj("internal/piecepicker", "(*PiecePicker).HandleChoke")
 	n := 0
+	// the fact is evaluated at the recording site including the context of its
+	// static callers: the recording may sit in a helper called under the test
+	notAF := c.FieldBoolSpec(fAF, false, kit.DefaultDeep)
 	for _, fn := range c.ModuleFunctions() {
 		if !inPkg(fn, c, "torrent") {
 			continue
 		}
-		var notAF *kit.Flow
 		kit.Instrs(fn, func(ins ssa.Instruction) {
 			isSite := isMapUpdateOf(ins, fChoked) || kit.CallsAny(ins, handleChoke)
 			if !isSite {
 				return
 			}
 			n++
-			if notAF == nil {
-				notAF = c.FieldBool(fn, fAF, false)
-			}
-			c.Check(notAF.Before(ins), rule, k.key(fn, "record choked download"), posOf(ins),
+			c.Check(notAF.Holds(ins, 2), rule, k.key(fn, "record choked download"), posOf(ins),
 				"a download is recorded as choked only under pd.AllowedFast==false", "an allowed-fast download can be recorded as choked: the unchoke arm never clears it (it breaks early for allowed-fast downloads) and the next snub hits the picker's 'peer snubbed while choked' panic")
 		})
 	}
